@@ -5,6 +5,7 @@ package harness
 
 import (
 	"bytes"
+	"errors"
 	"math"
 
 	"github.com/xinchentechnote/fin-proto-go/codec"
@@ -101,9 +102,15 @@ type objListOps struct {
 
 // Blob: a harness-side BinaryCodec element whose encoding has no byte order
 // (one length byte + payload), for the object-list primitives.
-type Blob struct{ P []byte }
+type Blob struct {
+	P      []byte
+	Refuse bool // Encode returns an error (stands for an element that holds an over-long field)
+}
 
 func (b *Blob) Encode(buf *bytes.Buffer) error {
+	if b.Refuse {
+		return errors.New("blob: element refuses to encode")
+	}
 	buf.WriteByte(byte(len(b.P)))
 	buf.Write(b.P)
 	return nil
